@@ -65,6 +65,10 @@ func main() {
 // continue the cycle from here (an oracle that started every slice at index 0 only ever ran its first kinds)
 var oracleOffset int
 
+// oracles that only compute (no sockets, no timers, no sleeping): a quick slice of theirs takes seconds, so one that
+// has not come back after three minutes is stuck (e.g. on a mutex the code under test never released)
+var computeOnly = map[string]bool{"cache": true, "cacheorder": true, "key": true, "addr": true, "dht": true, "node": true}
+
 // streams that only exist in the build with the fake clock (go >= 1.25, bin/corr26)
 var needBubble = map[string]bool{"ket": true}
 
@@ -101,6 +105,8 @@ func run(name string, seedV int64, nV int, tierV, outV, statsV, replayV, modeV s
 			limit := 8 * time.Minute
 			if *tier == "thorough" {
 				limit = 40 * time.Minute
+			} else if computeOnly[name] {
+				limit = 3 * time.Minute
 			}
 			if needBubble[name] {
 				// under the fake clock a timer fires as soon as every goroutine is blocked: no wall-clock watchdog there
